@@ -291,6 +291,11 @@ class _Resolver(ast.NodeTransformer):
                     self._beta -= 1
         self.generic_visit(n)
         f = n.func
+        if isinstance(f, ast.Name) and f.id == "getattr" and len(n.args) == 3 and not n.keywords and not self.shadow \
+                and isinstance(n.args[1], ast.Constant) and isinstance(n.args[1].value, str) and n.args[1].value.isidentifier():
+            # getattr(x, "name", default)  ==  x.name if hasattr(x, "name") else default
+            return ast.IfExp(test=ast.Call(func=name("hasattr"), args=[clone(n.args[0]), n.args[1]], keywords=[]),
+                             body=self._heap(ast.Attribute(value=n.args[0], attr=n.args[1].value, ctx=ast.Load())), orelse=n.args[2])
         if isinstance(f, ast.Name) and f.id == "getattr" and len(n.args) == 2 and not n.keywords \
                 and isinstance(n.args[1], ast.Constant) and isinstance(n.args[1].value, str) and n.args[1].value.isidentifier():
             return self._heap(ast.Attribute(value=n.args[0], attr=n.args[1].value, ctx=ast.Load()))
@@ -1029,8 +1034,23 @@ class SX:
         if isinstance(it, ast.Attribute) and isinstance(it.value, ast.Name):
             v = self.constant(it.attr, it.value.id)
             return self.static_iter(v, st, depth + 1) if v is not None else None
+        if isinstance(it, ast.Subscript) and isinstance(it.slice, ast.Constant):
+            d = self._literal_of(it.value)
+            if isinstance(d, ast.Dict) and all(isinstance(k, ast.Constant) for k in d.keys):
+                for k, v in zip(d.keys, d.values):
+                    if k.value == it.slice.value:
+                        return self.static_iter(v, st, depth + 1)
+            return None
         if isinstance(it, ast.Call) and not it.keywords:
             t = au.call_tail(it)
+            if isinstance(it.func, ast.Attribute) and t == "get" and 1 <= len(it.args) <= 2 and isinstance(it.args[0], ast.Constant):
+                d = self._literal_of(it.func.value)
+                if isinstance(d, ast.Dict) and all(isinstance(k, ast.Constant) for k in d.keys):
+                    for k, v in zip(d.keys, d.values):
+                        if k.value == it.args[0].value:
+                            return self.static_iter(v, st, depth + 1)
+                    return self.static_iter(it.args[1], st, depth + 1) if len(it.args) == 2 else None
+                return None
             if isinstance(it.func, ast.Attribute) and t in ("items", "keys", "values") and not it.args:
                 d = it.func.value
                 if isinstance(d, ast.Name):
@@ -1057,6 +1077,14 @@ class SX:
                     r = range(*[au.const(a) for a in it.args])
                     return [const(i) for i in r] if len(r) <= MAX_UNROLL else None
         return None
+
+    def _literal_of(self, d):
+        """the literal a name / class attribute is bound to (or the literal itself)"""
+        if isinstance(d, ast.Name):
+            return self.constant(d.id, None)
+        if isinstance(d, ast.Attribute) and isinstance(d.value, ast.Name):
+            return self.constant(d.attr, d.value.id)
+        return d
 
     def constant(self, nm, base):
         """literal bound once to a module-level name (base None) or to a class-level name (base: self / cls / class name)"""
